@@ -430,10 +430,17 @@ int main(int argc, char *argv[]) {
     execute_get_ret_value(func, &ops);
   }
 
+  int status = EXIT_SUCCESS;
   if (ops.create_bin != NONE) {
-    return create_binary_file(al, ops.create_bin, ops.param_file);
+    status = create_binary_file(al, ops.create_bin, ops.param_file);
   }
-  return EXIT_SUCCESS;
+  // -p, -b and -r print to stdout: if that failed (full device, closed
+  // stdout) the requested output was not produced
+  if (fflush(stdout) != 0 || ferror(stdout)) {
+    fprintf(stderr, "failed to write to stdout\n");
+    status = EXIT_FAILURE;
+  }
+  return status;
 }
 
 static void parse_opt(assemblyline_t al, int argc, char **argv,
